@@ -1,0 +1,25 @@
+//go:build verif
+
+// Contracts for package memca, checked by /verif (govc). Comment-only; compiled only under -tags verif.
+package memca
+
+// C10 (failure-atomic rotation): the rotation proof (rotate.Key against /verif/stubs/keymgmt.spec) covers authorities
+// that apply a mutation either entirely at once or entirely at Finalize. memca is of the first kind: every mutation
+// step is in effect when it returns - the certificate of a key version is stored by AddSigningKeyCert itself (not
+// buffered until Finalize), the primary is recorded by SetPrimarySigningKeyVersion itself - and Finalize has nothing
+// left to do, so a fault at or before Finalize cannot leave a primary without its certificate.
+//@ func (*CertificateAuthority).setCert
+//@   requires ca != nil
+//@   ensures[C10] ca.Certs != nil && has(ca.Certs, name) && ca.Certs[name] == cert
+
+//@ func (*Mutation).AddSigningKeyCert
+//@   requires m != nil && m.ca != nil
+//@   ensures[C10] m.ca.Certs != nil && has(m.ca.Certs, keyVersionName) && m.ca.Certs[keyVersionName] == cert
+
+//@ func (*Mutation).SetPrimarySigningKeyVersion
+//@   requires m != nil && m.ca != nil
+//@   ensures[C10] m.ca.PrimarySigningKey == keyVersionName
+
+//@ func (*CertificateAuthority).Finalize
+//@   assigns nothing
+//@   ensures[C10] result == nil
